@@ -172,7 +172,7 @@ def corpus_for(tier, seed):
     if tier == 'thorough':
         seen = {c[0] for c in cases}
         for s in range(seed + 1, seed + 9):
-            for cid, it in corpus.s2_random(s, 600):
+            for cid, it in list(corpus.s2_random(s, 600)) + list(corpus.s2_random2(s, 1500)):
                 if cid not in seen:
                     seen.add(cid)
                     cases.append((cid, it))
@@ -192,7 +192,8 @@ def cache_get(key):
 
 def cache_put(key, val):
     os.makedirs(runner.CACHE, exist_ok=True)
-    tmp = os.path.join(runner.CACHE, key + '.tmp%d' % os.getpid())
+    import threading
+    tmp = os.path.join(runner.CACHE, key + '.tmp%d.%d' % (os.getpid(), threading.get_ident()))
     with gzip.open(tmp, 'wb') as fh:
         pickle.dump(val, fh)
     os.replace(tmp, os.path.join(runner.CACHE, key + '.pkl.gz'))
@@ -219,6 +220,30 @@ def impl_observations(cases, cfgs):
     return out, dict(repo_hash=rh, cached=[c for c in cfgs if c not in todo], built=list(todo))
 
 
+def model_observations(cases, cfgs):
+    """output of the extracted Coq model, cached per (model sources, cfg, case list): it does not depend on /repo"""
+    from items import sx_item
+    h = hashlib.sha256()
+    h.update(model_hash().encode())
+    for cid, it in cases:
+        h.update(cid.encode())
+        h.update(sx_item(it).encode())
+    ch = h.hexdigest()[:24]
+    out, todo = {}, []
+    for c in cfgs:
+        got = cache_get('model-%s-%s' % (c, ch))
+        if got is None:
+            todo.append(c)
+        else:
+            out[c] = got
+    if todo:
+        res = runner.run_model({c: cases for c in todo})
+        for c in todo:
+            cache_put('model-%s-%s' % (c, ch), res[c])
+            out[c] = res[c]
+    return out
+
+
 def tie_a(prop, tier, seed):
     cases = corpus_for(tier, seed)
     cfgs = PROPS[prop]['cfgs']
@@ -226,7 +251,7 @@ def tie_a(prop, tier, seed):
     ires, meta = impl_observations(cases, ALL_CFGS)   # all five at once: the other properties reuse them
     t_impl = time.time() - t
     t = time.time()
-    mres = runner.run_model({c: cases for c in cfgs})
+    mres = model_observations(cases, cfgs)
     t_model = time.time() - t
     dis, stats = [], dict(cases=len(cases), cfgs=cfgs, compared=0, impls_compared=0, tokens_compared=0, accepted=0, rejected=0,
                           by_stream={}, class_mismatch=0, generator_errors=0, t_impl=round(t_impl, 2), t_model=round(t_model, 2))
